@@ -5,6 +5,7 @@ package shwap
 
 import (
 	"bytes"
+	"encoding/binary"
 	"encoding/json"
 	"fmt"
 	"io"
@@ -856,6 +857,31 @@ func TestVerifC18_Containers(t *testing.T) {
 		if acc, err := decodeStable(kind+"/stream", enc, stream); err != nil || (!acc && len(enc) > 0) {
 			t.Fatalf("honest %s encoding: accepted=%v err=%v", kind, acc, err)
 		}
+		// wrong length: a stream cut anywhere but at a message boundary must be refused
+		if len(enc) > 0 {
+			cut := rapid.IntRange(0, len(enc)-1).Draw(t, "cut")
+			if rapid.Bool().Draw(t, "cutnearend") {
+				cut = len(enc) - 1 - rapid.IntRange(0, min(len(enc)-1, 8)).Draw(t, "cutback")
+			}
+			atBoundary := false
+			for _, b := range messageBoundaries(enc) {
+				if b == cut {
+					atBoundary = true
+				}
+			}
+			multi := kind == "nd" || kind == "range"
+			if !(multi && atBoundary) {
+				acc, err := decodeStable(kind+"/stream", enc[:cut], stream)
+				if err != nil {
+					t.Fatalf("%v", err)
+				}
+				if acc {
+					t.Fatalf("C18 %s stream decoder accepted an encoding cut to %d of %d bytes (not a message boundary): wrong-length input must be refused",
+						kind, cut, len(enc))
+				}
+				labels = append(labels, "truncated-midmessage-refused")
+			}
+		}
 		mutated, mk := vk.MutateBytes(t, "mut", enc, nil)
 		acc, err := decodeStable(kind+"/stream", mutated, stream)
 		if err != nil {
@@ -999,4 +1025,20 @@ func FuzzVerifC18_ContainerDecoders(f *testing.F) {
 			t.Fatalf("C18 %v", err)
 		}
 	})
+}
+
+// messageBoundaries returns the offsets at which a length-delimited (uvarint-prefixed) message
+// of the stream starts or ends: 0, end of message 1, end of message 2, ...
+func messageBoundaries(b []byte) []int {
+	out := []int{0}
+	off := 0
+	for off < len(b) {
+		l, n := binary.Uvarint(b[off:])
+		if n <= 0 || off+n+int(l) > len(b) {
+			break
+		}
+		off += n + int(l)
+		out = append(out, off)
+	}
+	return out
 }
